@@ -105,8 +105,8 @@ var tmplLitConc = map[string][]string{
 // Go values per value token; the expected text of a value is the natural rendering of
 // strings, numbers and booleans
 var tmplValConc = map[string][]interface{}{
-	"p1": {"Alice", "a b", "3 < 4 & 5", "naïve ✓", "O'Neil \"q\"", "v1"},
-	"p2": {"Bob", "c d", "#tag", "end.", "x=y;z", "this"},
+	"p1": {"Alice", "a b", "3 < 4 & 5", "naïve ✓", "O'Neil \"q\"", "plain one"},
+	"p2": {"Bob", "c d", "#tag", "end.", "x=y;z", "plain two"},
 	"n0": {0, float64(0), int64(0)},
 	"n1": {42, 3.5, int64(7)},
 	"n2": {-1, 2.75, 0.25},
